@@ -7,8 +7,8 @@ LEVEL = "exploration"
 def plan(tier, seed):
     quick = tier == "quick"
     net = runner.net_path("material", 1)
-    shards = [dict(bin=("opt", "c10"), args=["--cases", 70 if quick else 6000, "--dfs-scripts", 1 if quick else 40,
-                                             "--dfs-points", 30 if quick else 0])
+    shards = [dict(bin=("opt", "c10"), args=["--cases", 50 if quick else 6000, "--dfs-scripts", 1 if quick else 40,
+                                             "--dfs-points", 24 if quick else 0])
               for _ in range(16)]
     return dict(
         builds=[("opt", "c10")],
@@ -24,7 +24,7 @@ def plan(tier, seed):
               "thorough: every) decision point. Scheduling points: Communicator::poll, before every queued inter-thread command, cv waits, "
               "sleeps, thread start/exit/join, reading a command. Non-trivial = run (distinct by script+schedule) with helper threads and "
               ">= 1 choice that differs from the fair baseline."),
-        floors={"helper threads + >=1 pre-emption": 150, "has ponderhit": 30, "ends with EOF": 20},
+        floors={"helper threads + >=1 pre-emption": 100, "has ponderhit": 25, "ends with EOF": 15},
         assumptions=["in-process engine via the public UCIProtocol::main with std::cin/std::cout redirected, one forked child per run",
                      "mutex-protected sections contain no scheduling point and are therefore atomic (lock discipline is judged by C09 under TSan)",
                      "bounded exploration: sampled schedules + at most one deviation from the baseline per systematic run; MPI cluster code is compiled out",
